@@ -2737,3 +2737,67 @@ def fragmentation_entry_updates(fns):
 
 
 SPECS["O9.7"] = [fragmentation_entry_updates]
+
+
+# ---------------------------------------------------------------------------------------------
+# C02 / C03 O2.7: every source a range scan merges is filtered by the snapshot's seqno
+# ---------------------------------------------------------------------------------------------
+
+def range_sources_filtered(fns):
+    cands = [f for f in fns if f.closure_span() and re.search(r"src/range\.rs", f.closure_span()) and re.search(r"create_range::\{closure#0\}\(", f.header)]
+    if len(cands) != 1:
+        raise MirError("create_range's source-building closure not found (%d candidates)" % len(cands))
+    fn = cands[0]
+    a = Automaton(fn, "O2.7 TreeIter::create_range: every iterator pushed into the merge is wrapped in a filter that applies seqno_filter")
+    pushes = [b for b in live_blocks(fn) if b.kind == "call" and re.search(r"Vec::<Box<dyn DoubleEndedIterator<Item = .*>>::push$", b.callee)]
+    if len(pushes) < 3:
+        raise MirError("create_range: expected at least three sources (tables, sealed memtables, active memtable), found %d pushes" % len(pushes))
+    # closures that call seqno_filter
+    sf_spans, unknown_spans = set(), set()
+    for f in fns:
+        if f.closure_span() and "src/range.rs" in f.closure_span() and re.search(r"-> bool", f.header):
+            if any(b.kind == "call" and re.search(r"(^|::)seqno_filter$", b.callee) for b in live_blocks(f)):
+                sf_spans.add(f.closure_span())
+            elif any(re.match(r"^_\d+ = Lt\(", st) for b in live_blocks(f) for st in b.stmts) and \
+                    not any(re.match(r"^_\d+ = (Le|Ge|Gt)\(", st) for b in live_blocks(f) for st in b.stmts):
+                sf_spans.add(f.closure_span())  # the same test written inline: item seqno < snapshot seqno
+            elif not any(re.match(r"^_\d+ = (Le|Ge|Gt|Lt|Eq|Ne)\(", st) for b in live_blocks(f) for st in b.stmts):
+                unknown_spans.add(f.closure_span())
+    if not sf_spans:
+        raise MirError("no closure in range.rs calls seqno_filter")
+    def chain_of(x, depth=14):
+        out = []
+        for _ in range(depth):
+            d = [st for b in live_blocks(fn) for st in b.stmts if st.startswith(x + " = ")]
+            if len(d) == 1:
+                m = re.match(r"^_\d+ = (?:move|copy) (_\d+)( as .*)?$", d[0])
+                if m:
+                    x = m.group(1)
+                    continue
+                return out
+            prod = [b for b in live_blocks(fn) if b.kind == "call" and b.dest == x]
+            if len(prod) != 1:
+                return out
+            out.append(prod[0].callee)
+            l = RE_LOCAL.search(prod[0].args or "")
+            if not l:
+                return out
+            x = l.group(0)
+        return out
+    bad = []
+    for pb in pushes:
+        arg = RE_LOCAL.findall(pb.args)[-1]
+        ch = chain_of(arg)
+        ok = any("as Iterator>::filter::<" in c and any(sp in c for sp in sf_spans) for c in ch)
+        if not ok and any("as Iterator>::filter::<" in c and any(sp in c for sp in unknown_spans) for c in ch):
+            raise MirError("create_range: a source is filtered by a predicate that is neither seqno_filter nor a plain seqno comparison - cannot be judged")
+        if not ok:
+            bad.append(pb)
+    a.glue = [("%d sources pushed, %d of them behind a seqno_filter filter" % (len(pushes), len(pushes) - len(bad)), "proved" if not bad else "refuted", 0.0)]
+    a.var("x")
+    a.event("call:push(unfiltered source)", [b.idx for b in bad])
+    a.require("call:push(unfiltered source)", "false", "a source of the range scan (tables of a run, a sealed memtable, the active memtable or the ephemeral memtable) is merged without the snapshot's seqno filter: the scan yields versions written after the snapshot")
+    return [a]
+
+
+SPECS["O2.7"] = [range_sources_filtered]
